@@ -255,7 +255,47 @@ func NormalizeFrequencies(freqs []int, alphabet []int, totalFreq, scale int) (in
 		}
 	}
 
-	freqs[idxMax] = max(freqs[idxMax]-delta, 1)
+	if delta == 0 {
+		return alphabetSize, nil
+	}
+
+	// The error could not be fully spread on the frequencies above 2.
+	if inc > 0 {
+		// Sum too small: the max frequency absorbs the rest
+		freqs[idxMax] += delta
+		return alphabetSize, nil
+	}
+
+	if freqs[idxMax] > delta {
+		freqs[idxMax] -= delta
+		return alphabetSize, nil
+	}
+
+	// Sum too big and the max frequency alone cannot absorb the rest: keep taking
+	// from the frequencies above 1 (one always exists while the sum exceeds the
+	// scale because alphabetSize <= scale), so that the table sums up to scale.
+	for delta > 0 {
+		adjustments := 0
+
+		for _, idx := range alphabet[0:alphabetSize] {
+			if freqs[idx] <= 1 {
+				continue
+			}
+
+			freqs[idx]--
+			adjustments++
+			delta--
+
+			if delta == 0 {
+				break
+			}
+		}
+
+		if adjustments == 0 {
+			break
+		}
+	}
+
 	return alphabetSize, nil
 }
 
